@@ -316,13 +316,4 @@ def cg (o : Chooser) : List Nat → Flags → List Sym → CgState → Code → 
 def cgTemplate (o : Chooser) (fl : Flags) (analysis : Prog) (body : Code) : List String :=
   (cg o [] {} [] {} (.frame fl analysis body .done)).1
 
--- ---------------------------------------------------------------------------------------------------------------
--- ext.py `InternationalizationExtension.parse` (ext.py:433-436), the part that orders the keyword arguments
--- ---------------------------------------------------------------------------------------------------------------
-
-/-- `for name in referenced: if name not in variables: variables[name] = Name(name)`; the result's key order is the order
-    in which `_make_node` emits keyword arguments (newstyle) / dict pairs (old style) -/
-def transVariables (ord : List String → List String) (variables : Dict String) (referenced : List String) : List String :=
-  ((ord referenced).foldl (fun d n => if (d.get? n).isSome then d else d.set n n) variables).keys
-
 end JinjaV.Symbols
